@@ -204,6 +204,21 @@ static void ledger_round(State& S, int rep) {
       for (int t = 0; t < T; t++) for (void* p : got[t]) if (p) { mi_free(p); g_ledger_blocks++; }   // blocks of exited threads freed by the survivor
       alloc_n(2000, 16, 8192, false);
       break; }
+    case 5: {                                                                          // storm of threads that terminate at the same moment (thread metadata cache)
+      const int T = 8, R = 40;
+      for (int rr = 0; rr < R; rr++) {
+        std::atomic<int> arrived(0);
+        std::vector<std::thread> ts;
+        for (int t = 0; t < T; t++) ts.emplace_back([&arrived, T]() {
+          void* p = mi_malloc(100); void* q = mi_malloc(5000); if (p) memset(p, 1, 100); mi_free(p); mi_free(q);
+          arrived.fetch_add(1);
+          while (arrived.load() < T) { }          // released together: the threads return (and release their metadata) at the same moment
+        });
+        for (auto& t : ts) t.join();
+        g_ledger_threads += T;
+      }
+      alloc_n(500, 16, 8192, false);
+      break; }
     default: break;
   }
   S.sm.verify_all("ledger round");
